@@ -143,6 +143,18 @@ CLAIMED = {
               "multi-slice pure-phase conservation beyond 2 slices follows by composing decided per-step identities (stated, not "
               "queried); mixed-state projection branch and gradient_step are outside"),
         design_ref="DESIGN.md §5 C16"),
+    "C17": dict(
+        engine="S+X",
+        technique="compositional solver-based checking of the real unwrapping code: _find_wrap (z3, mixed int/real), UnionFindPhase.union/_final_offsets executed on every forest with symbolic offsets (inductive step), _build_edges structure under CrossHair, bounded whole-algorithm symbolic runs with edge orders explored by forking",
+        text=("bounded model checking by symbolic execution, compositional: (1) for all wrapped phases and wrap counts of a neighbour "
+              "pair of a smooth field _find_wrap returns the difference of the wrap counts; (2) from any forest on <= 3 nodes (and "
+              "150 seeded / all 125 forests on 4 nodes) with symbolic offsets satisfying 'potential - wrap count is constant per "
+              "tree', one union step re-establishes the invariant and leaves other trees alone; (3) _build_edges returns exactly "
+              "the 4-neighbour pairs inside the mask for every mask on grids up to 3x3, with and without wrap-around; (4) whole runs "
+              "on 1x2 and 1x3 grids return the true phase up to one constant on every feasible edge order"),
+        note=("the step from (1)-(3) to arbitrary grids/masks is a stated pen-and-paper induction over the edge list, not a query; "
+              "pi is math.pi as an exact rational on both sides; the Poisson method and unwrap_bf_overlap_phase_torch are outside"),
+        design_ref="DESIGN.md §5 C17"),
     "C18": dict(
         engine="S",
         technique="term-valued symbolic execution of the real COM code (torch via __torch_function__, NumPy via facade) on symbolic positive intensities/masks; z3 decides equality with the weighted-mean oracle, batch/path independence, immutability, integer shift == roll",
